@@ -111,8 +111,12 @@ def gen_scenarios(spec, rng, n):
                     op["kwargs"] = copy.deepcopy(rng.choice(same)["kwargs"])
                 T, pol, retry_T = c09.call_policy(spec, fs, s, m, {})
                 op["call"] = {}
-                if pol and (retry_T is None or retry_T >= 20.0) and rng.random() < 0.7:
-                    op["faults"] = [rng.choice(pol["codes"]) for _ in range(rng.randint(1, 2))]
+                nf = rng.randint(1, 2)
+                # worst case of the backoff (jitter 1) must stay well inside the retry deadline: this oracle does not model
+                # deadlines (C09 does), so the faults must always end in a successful attempt
+                worst = sum(min(pol["initial"] * pol["multiplier"] ** k, pol["maximum"]) for k in range(nf)) + 1.0 if pol else 0.0
+                if pol and (retry_T is None or worst < 0.5 * retry_T) and rng.random() < 0.7:
+                    op["faults"] = [rng.choice(pol["codes"]) for _ in range(nf)]
                     op["call"] = {}                                           # default retry: the faults are retried
                 else:
                     op["call"] = {"retry": "none"}
